@@ -65,6 +65,8 @@ Definition show_pval (v : pval) : string :=
   | V_octet s => "o:" +++ hx s
   | V_word s => "w:" +++ hx s
   | V_types l => "t:" +++ join "," (map dec l)
+  | V_sized n s => "z:" +++ dec n +++ ":" +++ hx s
+  | V_time now t => "m:" +++ decZ now +++ ":" +++ dec t
   end.
 Definition read_pval (s : string) : pval :=
   match s with
@@ -76,6 +78,10 @@ Definition read_pval (s : string) : pval :=
     else if k =? 115 then V_strs (hex_list body)
     else if k =? 111 then V_octet (unhx body)
     else if k =? 119 then V_word (unhx body)
+    else if k =? 122 then
+      match split_at colon body with n :: h :: _ => V_sized (undec n) (unhx h) | _ => V_sized 0 [] end
+    else if k =? 109 then
+      match split_at colon body with n :: t :: _ => V_time (undecZ n) (undec t) | _ => V_time 0%Z 0 end
     else V_types (dec_list body)
   | _ => V_int 0
   end.
@@ -125,6 +131,10 @@ Definition run (fn : string) (args : list string) : string :=
   else if String.eqb fn "isname" then showb (is_domain_name (unhx a0))
   else if String.eqb fn "tables" then
     show_table type_table +++ ";" +++ show_table class_table +++ ";" +++ join "," (map dec registered_types)
+  else if String.eqb fn "tables2" then show_table cert_table +++ ";" +++ show_table alg_table
+  else if String.eqb fn "timetostr" then hx (time_to_string (undecZ a0) (undec a1))
+  else if String.eqb fn "strtotime" then show_optN (string_to_time (unhx a0))
+  else if String.eqb fn "splitn" then show_hexes (split_n (unhx a0) (N.to_nat (undec a1)))
   else if String.eqb fn "covered" then
     join "," (map dec (filter (fun t => match playout t with Some _ => true | None => false end) registered_types))
   else if String.eqb fn "rr" then
